@@ -182,43 +182,54 @@ RankExists ==
 
 NCal == Len(sc.cal)
 CalIdx == 1..NCal
-\* code: scores = np.maximum(conformalization.lower_bounds, conformalization.upper_bounds)
-Score(i) == Max2(sc.cal[i].lo, sc.cal[i].up)
-WSeq == [i \in CalIdx |-> sc.cal[i].w]
-WTot == SumSeq(WSeq, NCal)
+WTot == SumSeq([i \in CalIdx |-> sc.cal[i].w], NCal)
 \* correction_quantile = alpha * (1 + 1 / n_cal)  =  QNum / QDen
 QNum == sc.alpha[1] * (NCal + 1)
 QDen == sc.alpha[2] * NCal
 
-\* sort_values("scores"): any order of equal scores gives the same result, take (score, row)
+\* ---- scores = np.maximum(conformalization.lower_bounds, conformalization.upper_bounds)
+Conformity ==
+  /\ pc = "scores"
+  /\ st' = [st EXCEPT !.scores = [i \in CalIdx |-> Max2(sc.cal[i].lo, sc.cal[i].up)]]
+  /\ pc' = "sort"
+  /\ UNCHANGED sc
+Score(i) == st.scores[i]
+
+\* ---- _compute_population_correction: weights / total, sort_values("scores"), cumsum
+\* any order of equal scores gives the same result; take (score, row)
 Before(i, j) == Score(i) < Score(j) \/ (Score(i) = Score(j) /\ i < j)
-SortedIdx == [k \in CalIdx |-> CHOOSE i \in CalIdx : Cardinality({j \in CalIdx : Before(j, i)}) = k - 1]
-\* weights.cumsum() along the sorted frame srt, times WTot (the code divides every weight by the total first)
-RECURSIVE CumW(_, _)
-CumW(srt, k) == IF k = 0 THEN 0 ELSE CumW(srt, k - 1) + sc.cal[srt[k]].w
+SortCum ==
+  /\ pc = "sort"
+  /\ LET pos == [i \in CalIdx |-> Cardinality({j \in CalIdx : Before(j, i)}) + 1]   \* place of row i in the sorted frame
+     IN  st' = [st EXCEPT !.srt = [k \in CalIdx |-> CHOOSE i \in CalIdx : pos[i] = k]]
+  /\ pc' = "cumsum"
+  /\ UNCHANGED sc
+\* the cumulative weights along the sorted frame, times WTot (the code divides every weight by the total first)
+CumSum ==
+  /\ pc = "cumsum"
+  /\ LET c[k \in 0..NCal] == IF k = 0 THEN 0 ELSE c[k - 1] + sc.cal[st.srt[k]].w
+     IN  st' = [st EXCEPT !.cum = [k \in CalIdx |-> c[k]]]
+  /\ pc' = "correct"
+  /\ UNCHANGED sc
 
 \* shares and level are computed exactly in doubles iff the weights normalise exactly and 1/n_cal is exact
 FloatExactTie == IsPow2(WTot) /\ IsPow2(NCal)
+CumOnTie == \E k \in CalIdx : st.cum[k] * QDen = QNum * WTot
 \* query("percent > @correction_quantile") then min over scores: the first sorted row whose cumulative share
 \* exceeds q.  Deliberate deviation (DESIGN 4): with an inexact normalisation the scan can stop *at* an exact tie.
 PopCandidates ==
-  LET srt == SortedIdx
-      cum == [k \in CalIdx |-> CumW(srt, k)]
-      firstAbove == MinOfSet({k \in CalIdx : cum[k] * QDen >  QNum * WTot})
-      firstAtOrAbove == MinOfSet({k \in CalIdx : cum[k] * QDen >= QNum * WTot})
-      onTie == \E k \in CalIdx : cum[k] * QDen = QNum * WTot
-  IN  IF onTie /\ ~FloatExactTie
-      THEN {Score(srt[firstAbove]), Score(srt[firstAtOrAbove])}
-      ELSE {Score(srt[firstAbove])}
-CumOnTie == LET srt == SortedIdx IN \E k \in CalIdx : CumW(srt, k) * QDen = QNum * WTot
+  LET firstAbove == MinOfSet({k \in CalIdx : st.cum[k] * QDen >  QNum * WTot})
+      firstAtOrAbove == MinOfSet({k \in CalIdx : st.cum[k] * QDen >= QNum * WTot})
+  IN  IF CumOnTie /\ ~FloatExactTie
+      THEN {Score(st.srt[firstAbove]), Score(st.srt[firstAtOrAbove])}
+      ELSE {Score(st.srt[firstAbove])}
 
 \* np.quantile(scores, q) (linear interpolation) as a rational <<num, den>> in score units
 UnweightedQuantile ==
-  LET srt == SortedIdx
-      hN == QNum * (NCal - 1)                                \* h = hN / QDen, position in 0..NCal-1
+  LET hN == QNum * (NCal - 1)                                \* h = hN / QDen, position in 0..NCal-1
       lo == hN \div QDen
-      a  == Score(srt[lo + 1])
-      b  == IF lo + 2 <= NCal THEN Score(srt[lo + 2]) ELSE a
+      a  == Score(st.srt[lo + 1])
+      b  == IF lo + 2 <= NCal THEN Score(st.srt[lo + 2]) ELSE a
   IN  <<a * QDen + (hN - lo * QDen) * (b - a), QDen>>
 
 RatLE(x, y) == x[1] * y[2] <= y[1] * x[2]                    \* positive denominators
@@ -227,11 +238,10 @@ RatMax(x, y) == IF RatLE(x, y) THEN y ELSE x
 Correct ==
   /\ pc = "correct"
   /\ \E pop \in PopCandidates :
-       st' = [pop |-> pop,
-              unw |-> UnweightedQuantile,
-              \* robust: the larger of the two corrections; otherwise the population-weighted one
-              c   |-> IF sc.robust THEN RatMax(UnweightedQuantile, <<pop, 1>>) ELSE <<pop, 1>>,
-              lower |-> <<>>, upper |-> <<>>, lowerAdj |-> <<>>, upperAdj |-> <<>>]
+       LET unw == UnweightedQuantile IN
+       st' = [st EXCEPT !.pop = pop, !.unw = unw,
+                \* robust: the larger of the two corrections; otherwise the population-weighted one
+                !.c = IF sc.robust THEN RatMax(unw, <<pop, 1>>) ELSE <<pop, 1>>]
   /\ pc' = "apply"
   /\ UNCHANGED sc
 
@@ -264,8 +274,10 @@ Apply ==
   /\ pc' = "done"
   /\ UNCHANGED sc
 
-CorrNext == Correct \/ Apply
-CorrInitRest == pc = "correct" /\ st = [pop |-> 0]
+CorrNext == Conformity \/ SortCum \/ CumSum \/ Correct \/ Apply
+CorrFresh == [scores |-> <<>>, srt |-> <<>>, cum |-> <<>>, pop |-> 0, unw |-> <<0, 1>>, c |-> <<0, 1>>,
+              lower |-> <<>>, upper |-> <<>>, lowerAdj |-> <<>>, upperAdj |-> <<>>]
+CorrInitRest == pc = "scores" /\ st = CorrFresh
 
 \* ---- the property (C04, calibration clause), declaratively: about intervals, not about the code's max()
 Corrected == pc \in {"apply", "done"}
